@@ -99,3 +99,74 @@ Definition check_write_gen wp (cs : write_case) : bool :=
 
 Definition check_write := check_write_gen write_part_node_count.
 Definition check_write_old := check_write_gen write_part_node_count_old.
+
+(* ------------------------------------------------------------------------- *)
+(* second pass: several data variables / containers; several fields           *)
+(* ------------------------------------------------------------------------- *)
+Definition cont_lit := (option (list nat) * option (list nat) * option (list Z) * nat
+                        * list (list Z) * nat * nat * nat)%type.
+
+Definition cont_of_lit (l : cont_lit) : gcont :=
+  let '(nc, pnc, ring, nnodes, datas, idim, ndim, pdim) := l in
+  {| c_g := {| g_nc := nc; g_pnc := pnc; g_ring := ring; g_nnodes := nnodes |};
+     c_datas := datas; c_idim := idim; c_ndim := ndim; c_pdim := pdim |}.
+
+Definition var_obs := option (list oarr * option oarr * list nat).
+
+(* a dataset case: containers, data variables (container index, own dimensions), and what
+   cfdm.read presented for each data variable (None = cfdm.read raised ValueError) *)
+Definition readm_case := (list cont_lit * list (nat * list nat) * option (list var_obs))%type.
+
+Definition run_readm_gen (record_again own_counts : bool) (conts : list gcont) (dvs : list dvar)
+  : option (list var_obs) :=
+  match read_dataset_gen record_again own_counts true conts dvs with
+  | Err _ => None
+  | Ok l =>
+      let vg := snd (parse_all_gen record_again conts dvs) in
+      let parsed := fst (parse_all_gen record_again conts dvs) in
+      Some (map (fun pc : nat * option (list arr3 * option arr2) =>
+                   let '(p, cells) := pc in
+                   match cells, lookup_geometry p vg with
+                   | Some (bs, ring), Some gid =>
+                       let k := if own_counts then gid else effective_cont_old conts parsed gid in
+                       match nth_error conts k, nth_error conts gid with
+                       | Some ck, Some c =>
+                           Some (map (fun b => (bounds_shape (c_g ck), concat (concat b))) bs,
+                                 option_map (fun r => (ring_shape_gen new_bump (c_g c), concat r)) ring,
+                                 coord_shape true (bounds_shape (c_g ck)))
+                       | _, _ => None
+                       end
+                   | _, _ => None
+                   end) (combine (seq 0 (length l)) l))
+  end.
+
+Definition check_readm_gen (record_again own_counts : bool) (cs : readm_case) : bool :=
+  let '(conts, dvs, obs) := cs in
+  option_eqb (list_eqb (fun a b => obs_read_eqb a b))
+    (run_readm_gen record_again own_counts (map cont_of_lit conts)
+       (map (fun d : nat * list nat => {| d_gid := fst d; d_dims := snd d |}) dvs))
+    obs.
+
+Definition check_readm := check_readm_gen true true.
+
+(* several fields in one cfdm.write call: per field its bounds arrays, ring array and geometry
+   dimension; observed: per field the raw variables of the container its data variable names *)
+Definition write2_case :=
+  (list (list arr3 * option arr2 * nat)
+   * list (option (list nat * option (list nat) * option (list Z) * list (list Z))))%type.
+
+Definition run_write2_gen (use_partition : bool) (fs : list (list arr3 * option arr2 * nat)) :=
+  let fields := map (fun f : list arr3 * option arr2 * nat =>
+                       let '(arrs, ring, gd) := f in
+                       {| f_a := match arrs with a :: _ => a | [] => [] end; f_ring := ring; f_gdim := gd |}) fs in
+  map (fun fw : (list arr3 * option arr2 * nat) * result written =>
+         let '((arrs, _, _), w) := fw in
+         match w with
+         | Ok w => Some (w_nc w, w_pnc w, w_ring w, w_nodes w :: tl (map write_nodes arrs))
+         | Err _ => None
+         end) (combine fs (write_fields_gen use_partition [] fields)).
+
+Definition check_write2_gen (use_partition : bool) (cs : write2_case) : bool :=
+  let '(fs, obs) := cs in list_eqb obs_write_eqb (run_write2_gen use_partition fs) obs.
+
+Definition check_write2 := check_write2_gen true.
